@@ -201,6 +201,12 @@ func requestsDepth(hosts []string, depth int) []rsx.Req {
 				out = append(out, rsx.Req{Method: m, Host: h, Path: p})
 			}
 		}
+		// escaped targets: the router routes on the escaped form, which differs from the decoded path
+		for _, e := range [][2]string{{"/a/b", "/a%2Fb"}, {"/a", "/%61"}, {"/a/", "/a%2F"}} {
+			for _, m := range []string{"GET", "DELETE", "FOO", "OPTIONS"} {
+				out = append(out, rsx.Req{Method: m, Host: h, Path: e[0], Raw: e[1]})
+			}
+		}
 	}
 	return out
 }
